@@ -304,3 +304,14 @@ reg('C29', engine='llsym',
     note='Trusted: clang IR, llsym, the ffi_prep_closure contract stub (libffi writes only the given closure). One inductive step '
          'covers histories of any length provided INV is the right invariant (it is established by more_core and kept by both steps).',
     technique='symbolic execution of LLVM IR from an arbitrary invariant-satisfying heap state (inductive step), SMT (z3)')
+
+reg('C27', engine='llsym',
+    text='Inductive steps on the real unique-type cache: from every cache state (symbolic key bytes, each weakref alive or dead) '
+         'satisfying the representation invariant, get_unique_type returns the live ctype cached under this key or inserts x '
+         'under it and keeps the invariant; ctypedescr_dealloc removes exactly the dying ctype\'s own dead entry and leaves '
+         'live/replaced entries alone; and the keys built by the real new_pointer_type / new_array_type / new_function_type for two '
+         'symbolic parameter choices are equal iff the two C types are the same (array lengths with every item size including 0, '
+         'array arguments decayed to pointers).',
+    note='Trusted: clang IR, llsym, contracts for PyDict_*/PyWeakref_* (3.13 API level). The Python-level model.global_cache '
+         'memo is outside; primitive keys are table-row addresses (C06).',
+    technique='symbolic execution of LLVM IR from an arbitrary invariant-satisfying cache state (inductive step) + two-run key injectivity, SMT (z3)')
